@@ -111,7 +111,7 @@ def d3(cx: Cx, ob: Ob) -> None:
     prov = Prov(s)
     found = False
     for t, ctx in s.returns():
-        ctor = [x for x in subterms(t) if op(x) == "call" and op(x[1]) == "cls" and x[1][1] == CONV]
+        ctor = [x for x in subterms(t) if op(x) == "call" and ((op(x[1]) == "cls" and x[1][1] == CONV) or x[1] == ("attr", me, "__class__") or x[1] == ("call", ("builtin", "type"), (me,), ()))]
         if not ctor:
             continue
         recs = ctor[0][2][0] if ctor[0][2] else dict(ctor[0][3]).get("records")
